@@ -1212,7 +1212,7 @@ Lemma end_unsol_spec : forall cfg s n r s' ns o,
                | _ => if n then UNullRequired else UReady (Some (s_now s + o_retry_delay_ms cfg)%Z)
                end /\
   o = (if n then [] else match r with UrConfirmed => [ODb DbClearWritten] | _ => [ODb DbReset] end) /\
-  ns = (if n then true else match r with UrConfirmed => true | _ => false end).
+  ns = (if n then true else match r with UrConfirmed => true | _ => (o_retry_delay_ms cfg <=? 0)%Z end).
 Proof.
   intros cfg s n r s' ns o H. unfold end_unsol in H.
   destruct n, r; inv_pair H; repeat split.
